@@ -1,1 +1,4 @@
-//! E2: controlled scheduler
+//! E2: controlled scheduler (preemption-bounded DFS over real thread interleavings).
+use kira::verif::Event;
+
+pub fn sched_hook(_ev: Event) {}
